@@ -142,6 +142,8 @@ func clashEngine(c *Ctx) {
 		for _, op := range ls {
 			if strings.HasPrefix(op, "clash ") {
 				clashExec(c, op)
+			} else if strings.HasPrefix(op, "unplaceable ") {
+				unplaceableExec(c, op)
 			}
 		}
 		return
@@ -149,6 +151,132 @@ func clashEngine(c *Ctx) {
 	for _, fm := range []string{"tar", "zip"} {
 		for k := 0; k < 10; k++ {
 			clashExec(c, fmt.Sprintf("clash %s %d", fm, k))
+		}
+		for k := 0; k < 5; k++ {
+			unplaceableExec(c, fmt.Sprintf("unplaceable %s %d", fm, k))
+		}
+	}
+}
+
+// unplaceable: archives that describe a fileset no Linux file system can hold — a name component longer than NAME_MAX
+// (listed, or only implied as a parent), a link target longer than PATH_MAX, a path longer than PATH_MAX. A scan reads them
+// (nothing is placed); an unpack, direct or through the cache, answers a documented rio category — the one a CLI maps to an
+// exit code — and never panics. Recipe: "unplaceable <tar|zip> <k>".
+func unplaceableExec(c *Ctx, op string) {
+	c.Begin(op)
+	f := strings.Fields(op)
+	fmtName := f[1]
+	k := 0
+	fmt.Sscan(f[2], &k)
+	long := strings.Repeat("d", 300)
+	deep := strings.TrimSuffix(strings.Repeat(strings.Repeat("p", 200)+"/", 25), "/")
+	shapes := [][]clashEnt{
+		{{long + "/f", 'f', ""}},                                // the parent is only implied
+		{{"./", 'd', ""}, {long + "/", 'd', ""}, {long + "/f", 'f', ""}}, // … or listed
+		{{"./", 'd', ""}, {"ok/", 'd', ""}, {"ok/" + long, 'f', ""}},
+		{{"./", 'd', ""}, {"l", 'L', strings.Repeat("t", 5000)}},
+		{{deep + "/f", 'f', ""}},
+	}
+	shape := shapes[k%len(shapes)]
+	caseCounter++
+	base := filepath.Join(c.Work, fmt.Sprintf("up%d", caseCounter))
+	defer rmrf(base)
+	os.MkdirAll(base, 0755)
+	os.Setenv("RIO_CACHE", filepath.Join(base, "cache"))
+	os.Setenv("RIO_BASE", filepath.Join(base, "riobase"))
+	var buf bytes.Buffer
+	t0 := time.Unix(1e9, 0)
+	if fmtName == "tar" {
+		tw := tar.NewWriter(&buf)
+		for _, e := range shape {
+			h := &tar.Header{Name: e.name, Mode: 0644, ModTime: t0, Typeflag: tar.TypeReg, Format: tar.FormatPAX}
+			switch e.kind {
+			case 'd':
+				h.Typeflag, h.Mode = tar.TypeDir, 0755
+			case 'L':
+				h.Typeflag, h.Linkname, h.Mode = tar.TypeSymlink, e.link, 0777
+			default:
+				h.Size = 1
+			}
+			if tw.WriteHeader(h) != nil {
+				c.EmitR(op, "skip", "skip")
+				return
+			}
+			if e.kind == 'f' {
+				tw.Write([]byte("x"))
+			}
+		}
+		tw.Close()
+	} else {
+		zw := zip.NewWriter(&buf)
+		for _, e := range shape {
+			h := &zip.FileHeader{Name: e.name, Method: zip.Store, Modified: t0}
+			body := ""
+			switch e.kind {
+			case 'd':
+				h.SetMode(os.ModeDir | 0755)
+			case 'L':
+				h.SetMode(os.ModeSymlink | 0777)
+				body = e.link
+			default:
+				h.SetMode(0644)
+				body = "x"
+			}
+			w, err := zw.CreateHeader(h)
+			if err != nil {
+				c.EmitR(op, "skip", "skip")
+				return
+			}
+			w.Write([]byte(body))
+		}
+		zw.Close()
+	}
+	ware := filepath.Join(base, "ware")
+	os.WriteFile(ware, buf.Bytes(), 0644)
+	c.EmitR(op, "skip", "skip")
+	ctx := context.Background()
+	fn := funcsFor(fmtName)
+	uf := api.MustParseFilesetUnpackFilter(losslessUnpackStr)
+	src := api.WarehouseLocation("file://" + ware)
+	sid, serr, span := safeCall(func() (api.WareID, error) {
+		return fn.scan(ctx, api.PackType(fmtName), uf, rio.Placement_Direct, src, rio.Monitor{})
+	})
+	c.H(fmt.Sprintf("unplaceable:%s:%d:scan=%s", fmtName, k%len(shapes), strings.Fields(resTok(sid, serr, span))[0]))
+	if span != "" {
+		c.PropFail("panic-scan", "scan of an archive with an over-long name panicked: "+span, op)
+		return
+	}
+	documented := func(e error) (ok bool) {
+		defer func() {
+			if recover() != nil {
+				ok = false
+			}
+		}()
+		if !strings.HasPrefix(catOf(e), "rio-") {
+			return false
+		}
+		rio.ExitCodeForError(e) // panics on a category it has no exit code for
+		return true
+	}
+	if serr != nil {
+		if !documented(serr) {
+			c.PropFail("uncategorized-error", "scan refuses the archive with an error outside the documented categories: "+catOf(serr)+": "+serr.Error(), op)
+		}
+		return
+	}
+	for _, pm := range []rio.PlacementMode{rio.Placement_Direct, rio.Placement_Copy, rio.Placement_None} {
+		_, uerr, upan := safeCall(func() (api.WareID, error) {
+			return fn.unpack(ctx, sid, filepath.Join(base, "dst-"+string(pm)), uf, pm, []api.WarehouseLocation{src}, rio.Monitor{})
+		})
+		c.H(fmt.Sprintf("unplaceable:%s:%d:%s=%s", fmtName, k%len(shapes), pm, strings.Join(strings.Fields(resTok(api.WareID{}, uerr, upan))[:min(2, len(strings.Fields(resTok(api.WareID{}, uerr, upan))))], "_")))
+		if upan != "" {
+			c.PropFail("unpack-panic", fmt.Sprintf("unpack (%s) of an archive with an over-long name panicked: %s", pm, upan), op)
+		} else if uerr != nil && !documented(uerr) {
+			msg := uerr.Error()
+			if len(msg) > 300 {
+				msg = msg[:300]
+			}
+			c.PropFail("uncategorized-error", fmt.Sprintf("unpack (%s) of an archive whose entries no file system can hold fails with an error outside the documented categories (a CLI has no exit code for it): %s: %s", pm, catOf(uerr), msg), op)
 		}
 	}
 }
